@@ -179,3 +179,17 @@ def main(tier):
     run.sample({"cfg": traces[-1]["cfg"], "calls": [s["i"] for s in traces[-1]["steps"][:5]],
                 "layout": traces[-1]["steps"][-1]["o"]})
     return run.finish()
+
+
+def replay(path):
+    with open(path) as f:
+        doc = json.load(f)
+    rp = doc["replay"]
+    calls = [{k: v for k, v in c.items() if k not in ("ok", "exc")} for c in rp["history"]]
+    tr = {"cfg": rp["cfg"], "steps": run_history(rp["cfg"], calls)}
+    fails = tracecheck.validate("CsrBuilder_Trace", "Cb", [tr])
+    if fails:
+        print(f"VIOLATION property=C17 replay={path}\n  what: still rejected at call {fails[0]['t']}, clause {fails[0]['err']}")
+        return common.EXIT_VIOLATION
+    print(f"replay of {path}: accepted by the specification on this tree ({len(calls)} calls)")
+    return common.EXIT_OK
